@@ -1450,7 +1450,7 @@ def run_thorough(ctx: Context) -> None:
                     "data_received/_handle_timeout/_cancel_pending_requests",
                     ctx.loc(g, n),
                 )
-    ck.require_min("C08.S1", "set_result/set_exception/cancel sites in aiohomekit.controller.ip", n_sites, 4)
+    ck.require_min("C08.S1", "set_result/set_exception/cancel sites in aiohomekit.controller.ip", n_sites, 2)
     # senders
     n_send = 0
     for m in prog.modules.values():
@@ -1491,7 +1491,7 @@ def run_thorough(ctx: Context) -> None:
                                      and any(T.of(cfg, x, it.context_expr) == limit for it in fr[1].items) for fr in x.frames)
                 ck.check("C08.S1", ok, f"{_short(where)}: send_bytes is called only from request(), inside the semaphore",
                          f"{where}:foreign-send_bytes", f"{where} sends on the protocol outside HomeKitConnection.request's semaphore", loc)
-    ck.require_min("C08.S1", "references to send_bytes/_send_lines/_handle_timeout", n_send, 4)
+    ck.require_min("C08.S1", "references to send_bytes/_send_lines/_handle_timeout", n_send, 2)
 
 
 MANIFEST = {
